@@ -742,6 +742,11 @@ func (p TXParamSetupReqPayload) MarshalBinary() ([]byte, error) {
 	if p.MaxEIRP > 15 {
 		return nil, errors.New("lorawan: max value of MaxEIRP is 15")
 	}
+	for _, dt := range []DwellTime{p.UplinkDwellTime, p.DownlinkDwelltime} {
+		if dt != DwellTimeNoLimit && dt != DwellTime400ms {
+			return nil, errors.New("lorawan: dwell-time must be DwellTimeNoLimit or DwellTime400ms")
+		}
+	}
 
 	b := p.MaxEIRP
 
